@@ -1,7 +1,25 @@
-//! Correspondence harness of property C06 (stub).
-use mzkh::Ctx;
+//! Correspondence harness of property C06 (elliptic-curve gadgets).
+//!
+//! * `h-c06 --dump-gates FILE`: runs the REAL `EccChip::configure` / `ForeignEccChip::configure`
+//!   and writes the gate polynomials as expression ASTs (JSON) for `translators/c06_gates.py`.
+//! * `h-c06 --probe`: prints a few exploratory runs (development aid).
+//! * `h-c06 --tier T --seed S --out DIR`: correspondence + oracle run (see `run.rs`).
+mod circ;
+mod gates;
+mod run;
 
 fn main() {
-    let ctx = Ctx::from_args("C06");
+    let args: Vec<String> = std::env::args().collect();
+    if args.len() >= 3 && args[1] == "--dump-gates" {
+        gates::dump(&args[2]);
+        return;
+    }
+    if args.len() >= 2 && args[1] == "--probe" {
+        mzkh::quiet_panics();
+        run::probe(&args[2..]);
+        return;
+    }
+    let mut ctx = mzkh::Ctx::from_args("C06");
+    run::run(&mut ctx);
     ctx.finish();
 }
